@@ -150,7 +150,9 @@ __CPROVER_decreases(size - x)
 """
 
 PUSH = Rule('ret.push_back(', 'vstr_push_back(ret, ', count='+')
-RETSTR = [Rule(r'\bstring ret;', '', count=1, regex=True), Rule(r'\breturn ret;', 'return;', count=1, regex=True)]
+# (reserve() is a capacity hint without observable effect: the string model has its capacity from the precondition)
+RETSTR = [Rule(r'\bstring ret;', '', count=1, regex=True), Rule(r'\breturn ret;', 'return;', count=1, regex=True),
+          Rule(r'\bret\.reserve\([^;]*\);', '', count=None, regex=True)]
 
 # where the blocks are cut (tolerant of edits inside the parentheses: an edited header reaches the verifier)
 ENC_SIG = r'string base64_encode\(const void\* vdata, size_t size, const char\* alphabet\)'
@@ -167,14 +169,24 @@ def encoding_units(ctx, src):
         lit = ua.snippet(src, ENC, r'const char\* %s = ("(?:[^"\\\n]|\\.)*");' % name, group=1)
         # the source declares a (mutable) pointer variable initialised with a literal; modelled as the constant array
         ua.raw('const char %s[] = %s;' % (name, lit))
-    ua.write(suffix='.h', scan=False)
     u = Unit(ctx, 'encoding')
+    # the element type through which the functions read their input (`const T* data = reinterpret_cast<const T*>(vdata);`) is read from
+    # the source: the blocks cut out of the functions take `data` as a parameter of exactly that type (char vs uint8_t decides sign extension)
+    def data_type(sig):
+        _, body, _, _ = __import__('vf.lex', fromlist=['x']).find_def(src.text(ENC), sig, 'function')
+        mo = re.findall(r'\bconst (\w+)\* data = reinterpret_cast<const (\w+)\*>\(vdata\);', body)
+        if len(mo) != 1 or mo[0][0] != mo[0][1] or mo[0][0] not in ('uint8_t', 'char', 'int8_t', 'unsigned char', 'signed char'):
+            raise ExtractionBreak('%s: cannot read the element type of `data` (%r)' % (sig, mo))
+        return mo[0][0]
+    ET, DT = data_type(ENC_SIG), data_type(DEC_SIG)
+    ua.raw('#include <stdint.h>\n#define C11_ENC_T %s\n#define C11_DEC_T %s' % (ET, DT))
+    ua.write(suffix='.h', scan=False)
     # ---- base64_encode: loop body and the two tail branches (step contracts), and the whole function ----
-    u.block(src, ENC, ENC_SIG, ENC_FOR, new_header='void base64_encode_block(vstr* ret, const uint8_t* data, size_t offset, const char* alphabet)',
+    u.block(src, ENC, ENC_SIG, ENC_FOR, new_header='void base64_encode_block(vstr* ret, const %s* data, size_t offset, const char* alphabet)' % ET,
             rules=[PUSH])
-    u.block(src, ENC, ENC_SIG, ENC_IF2, new_header='void base64_encode_tail2(vstr* ret, const uint8_t* data, size_t end_offset, const char* alphabet)',
+    u.block(src, ENC, ENC_SIG, ENC_IF2, new_header='void base64_encode_tail2(vstr* ret, const %s* data, size_t end_offset, const char* alphabet)' % ET,
             rules=[PUSH])
-    u.block(src, ENC, ENC_SIG, ENC_IF1, new_header='void base64_encode_tail1(vstr* ret, const uint8_t* data, size_t end_offset, const char* alphabet)',
+    u.block(src, ENC, ENC_SIG, ENC_IF1, new_header='void base64_encode_tail1(vstr* ret, const %s* data, size_t end_offset, const char* alphabet)' % ET,
             rules=[PUSH])
     u.function(src, ENC, ENC_SIG,
                new_header='void base64_encode(vstr* ret, const void* vdata, size_t size, const char* alphabet)',
@@ -182,7 +194,7 @@ def encoding_units(ctx, src):
                rules=RETSTR + [PUSH, LoopGhost(1, 'g_i++;')], loops={1: ENCODE_LOOP}, nloops=1)
     # ---- base64_decode: loop body (step contract), and the whole function ----
     u.block(src, ENC, DEC_SIG, DEC_FOR,
-            new_header='void base64_decode_block(vstr* ret, const uint8_t* data, size_t offset, size_t end_offset, const char* inverse_alphabet)',
+            new_header='void base64_decode_block(vstr* ret, const %s* data, size_t offset, size_t end_offset, const char* inverse_alphabet)' % DT,
             rules=[PUSH], ret_zero='')
     u.function(src, ENC, DEC_SIG,
                new_header='void base64_decode(vstr* ret, const void* vdata, size_t size, const char* alphabet)',
